@@ -24,6 +24,8 @@ from hypothesis import strategies as st
 
 from vfw.core import Ctx, Sub
 
+ROOT_DIR = os.path.dirname(os.path.dirname(os.path.dirname(os.path.abspath(__file__))))
+
 PROPERTY = "C13"
 RULE = (
     "one pair of runs per evaluation. Non-trivial: each run sends >=5 requests and the document has an input whose minimal example is filtered out "
@@ -194,6 +196,52 @@ def check_inprocess(ctx: Ctx, inp) -> None:
         ctx.disagree("inprocess:reported-failures-differ", f"{fa} vs {fb}", input=inp)
 
 
+ALTERNATIVES = [{"type": "string", "enum": ["a", "b", "c"]}, {"type": "integer", "minimum": 1, "maximum": 10}, {"type": "boolean"}, {"type": "string", "minLength": 2}]
+
+
+def other_api(d):
+    """Another API with the same operations (paths, methods, parameter names) whose parameters are documented differently."""
+    twin = json.loads(json.dumps(d))
+    for o in twin["ops"]:
+        for j, p in enumerate(o["op"]["parameters"]):
+            p["schema"] = next(a for a in ALTERNATIVES[j % len(ALTERNATIVES):] + ALTERNATIVES if a.get("type") != p["schema"].get("type") or a != p["schema"])
+            p.pop("example", None)
+    return twin
+
+
+def check_other_api_first(ctx: Ctx, inp) -> None:
+    """What a run sends does not depend on what the same process tested before: the run of this API in a fresh process equals
+    its run in a process that first tested another API with the same operation labels."""
+    from vfw.harness import loopback
+
+    d = dict(inp["doc"], links=False, twin=False)
+    cfg = dict(_cfg(dict(inp, unexpected_methods=None)), phases=[p for p in inp["phases"] if p != "stateful"] or ["fuzzing"])
+    workdir = tempfile.mkdtemp(prefix="vfw-c13-", dir="/var/tmp")
+    try:
+        server = loopback.shared(make_script(d))
+        port = server.server.server_port
+        seqs = []
+        for order in (["B"], ["A", "B"]):
+            before = len(server.snapshot())
+            steps = [{"tag": tag, "url": server.url, "doc": build_doc(d if tag == "B" else other_api(d)), "cfg": dict(cfg, network={"headers": {"X-Run": tag}})} for tag in order]
+            spec_path = os.path.join(workdir, f"spec{len(order)}.json")
+            with open(spec_path, "w") as fd:
+                json.dump({"steps": steps}, fd)
+            done = subprocess.run([sys.executable, "-m", "vfw.harness.c13_driver", spec_path], cwd=ROOT_DIR, env=dict(os.environ, PYTHONHASHSEED="1"), capture_output=True, timeout=240)
+            if done.returncode != 0:
+                ctx.case(classes=["driver-failed"])
+                ctx.disagree("other-api-first:engine-exception", f"{done.stdout.decode()[-300:]} {done.stderr.decode()[-300:]}", input=inp)
+                return
+            seqs.append(normalise([r for r in server.snapshot()[before:] if r.header("X-Run") == "B"], port))
+        a, b = seqs
+        ctx.case(nontrivial=inp if "negative" in inp["modes"] and len(a) > 3 else None, classes=[f"modes={'+'.join(inp['modes'])}", f"phases={'+'.join(cfg['phases'])}", f"requests>={min(len(a) // 10 * 10, 50)}"], sample={"input": inp, "requests": len(a)})
+        if a != b:
+            i, x, y = first_difference(a, b)
+            ctx.disagree("other-api-first:request-sequences-differ", f"seed {inp['seed']}: alone the run sent {len(a)} requests, after another API with the same operation labels {len(b)}; first difference at #{i}: {x} vs {y}"[:700], input=inp)
+    finally:
+        shutil.rmtree(workdir, ignore_errors=True)
+
+
 def check_workers(ctx: Ctx, inp) -> None:
     from vfw.harness import engine_run, loopback
 
@@ -269,13 +317,14 @@ def check_cli(ctx: Ctx, inp) -> None:
 SUBS = [
     Sub("inprocess", collect=True, fn=check_inprocess, strategy=pair_case, quick=(16, 6), thorough=(16, 300), shrink_quick=False, timeout_quick=600, timeout_thorough=3400),
     Sub("workers", collect=True, fn=check_workers, strategy=pair_case, quick=(8, 5), thorough=(16, 150), shrink_quick=False, timeout_quick=600, timeout_thorough=3400),
+    Sub("other_api_first", collect=True, fn=check_other_api_first, strategy=pair_case, quick=(16, 2), thorough=(16, 60), shrink_quick=False, timeout_quick=600, timeout_thorough=3400),
     Sub("cli", collect=True, fn=check_cli, strategy=pair_case, quick=(16, 2), thorough=(16, 80), shrink_quick=False, timeout_quick=600, timeout_thorough=3400),
 ]
-FLOOR = {"inprocess": 60, "cli": 20, "workers": 20}
+FLOOR = {"inprocess": 60, "cli": 20, "workers": 20, "other_api_first": 20}
 
 MANIFEST = {
     "category": "exploration",
     "technique": "metamorphic testing over generated (document, configuration, seed) triples: two executions must send identical request sequences (same process and same config object; fresh CLI processes with different hash seeds in one directory); worker count must not change per-operation request multisets",
-    "text": "Generated documents whose input spaces expose unseeded generation are run twice with one seed against a deterministic loopback API: in one process with the same EngineConfig object, and as two fresh `st run --seed` subprocesses with different PYTHONHASHSEED values sharing a working directory and default database settings; the ordered request sequences (method, target, headers minus the case id, body) and the reported failures must be equal. With 2-4 workers the per-operation multisets of requests in the unit phases must equal those of the one-worker run.",
+    "text": "Generated documents whose input spaces expose unseeded generation are run twice with one seed against a deterministic loopback API: in one process with the same EngineConfig object, and as two fresh `st run --seed` subprocesses with different PYTHONHASHSEED values sharing a working directory and default database settings; the ordered request sequences (method, target, headers minus the case id, body) and the reported failures must be equal. With 2-4 workers the per-operation multisets of requests in the unit phases must equal those of the one-worker run. A run in a fresh process must also equal the same run in a process that first tested another API with the same operation labels but differently documented parameters (child processes driving the engine; process-wide caches must not carry anything over).",
     "note": "Trusts the loopback recorder; the stateful phase is excluded from the worker-count clause (as the statement does).",
 }
